@@ -129,6 +129,12 @@ def arrangement(d, kind, ni, where, a, c):
             ref = {"$ref": "other.json#/definitions/" + enc(name)}
         else:
             ref = {"$ref": OTHER + "#/definitions/" + enc(name)}
+    elif kind in ("store-key-hash", "store-key-case"):
+        # the caller's store key is a different spelling of the same URI (trailing '#', upper-case scheme)
+        doc = {"definitions": defs_all(a + 1)}
+        target = T(a + 1, ni)
+        store = {(OTHER + "#") if kind == "store-key-hash" else OTHER.replace("http://", "HTTP://"): doc}
+        ref = {"$ref": OTHER + "#/definitions/" + enc(name)}
     elif kind == "store-back-reference":
         # root -> other#/definitions/r -> "#/definitions/<name>" which must resolve inside `other`, not inside the root
         doc = {"definitions": dict(defs_all(a + 1), r={"$ref": "#/definitions/" + enc(name)})}
@@ -165,7 +171,7 @@ def arrangement(d, kind, ni, where, a, c):
     return with_ref, inlined, store, handlers, xkind
 
 
-KINDS = ["local", "local+siblings", "rootid-fragment", "rootid-absolute", "rootid-relative", "rootid-hash", "store-absolute", "store-relative",
+KINDS = ["store-key-hash", "store-key-case", "local", "local+siblings", "rootid-fragment", "rootid-absolute", "rootid-relative", "rootid-hash", "store-absolute", "store-relative",
          "handler-absolute", "store-own-id", "store-back-reference", "chain2", "chain3", "whole-document"]
 
 
@@ -198,6 +204,9 @@ def nested_base(d, variant):
         return small(x, 1, 2, 1)
 
     def body(x, a, b):
+        if variant == "same-relative-id-two-bases":
+            # three object levels: concrete outer levels, one symbolic innermost object
+            x = {"p": {"t": x}, "r": {"t": x}}
         leaf_in_dir = {"maximum": a}
         leaf_at_root = {"minimum": b}
         store = {"http://x.test/dir/leaf.json": leaf_in_dir, "http://x.test/leaf.json": leaf_at_root,
@@ -226,6 +235,14 @@ def nested_base(d, variant):
             if d == 3:
                 with_ref = {idk: ROOT, "properties": {"r": {"type": [{idk: "dir/", "extends": [{"$ref": "leaf.json"}]}, {"$ref": "leaf.json"}]}}}
                 inl = {"properties": {"r": {"type": [{"extends": [leaf_in_dir]}, leaf_at_root]}}}
+        elif variant == "same-relative-id-two-bases":
+            # the same relative id string under two different bases: each must be joined against its own base
+            store["http://x.test/v1/types/size.json"] = leaf_in_dir
+            store["http://x.test/v2/types/size.json"] = leaf_at_root
+            sub_ = lambda: {idk: "types/", "properties": {"q": {"$ref": "size.json"}}}    # noqa: E731
+            with_ref = {idk: ROOT, "properties": {"p": {idk: "v1/", "properties": {"t": sub_()}}, "r": {idk: "v2/", "properties": {"t": sub_()}}}}
+            inl = {"properties": {"p": {"properties": {"t": {"properties": {"q": leaf_in_dir}}}},
+                                  "r": {"properties": {"t": {"properties": {"q": leaf_at_root}}}}}}
         elif variant in ("bool-target-true", "bool-target-false"):
             # a reference into another document lands on a boolean schema; the next sibling reference is local to the root
             bt = variant.endswith("true")
@@ -240,11 +257,11 @@ def nested_base(d, variant):
         want = observe(d, inl, x)
         return multiset_eq(got, want), ("valid" if not want else "invalid")
 
-    T_ = KIND_TYPES["obj_arr_int"] if variant == "absolute-id-below" else KIND_TYPES["obj_obj_int"] if variant in ("dir-then-root", "root-then-dir", "target-with-own-id") else KIND_TYPES["obj_int"]
+    T_ = KIND_TYPES["obj_int"] if variant == "same-relative-id-two-bases" else KIND_TYPES["obj_arr_int"] if variant == "absolute-id-below" else KIND_TYPES["obj_obj_int"] if variant in ("dir-then-root", "root-then-dir", "target-with-own-id") else KIND_TYPES["obj_int"]
     return Spec([("x", T_), ("a", int), ("b", int)], pre, body, tags=["valid", "invalid"])
 
 
-NESTED = ["dir-then-root", "root-then-dir", "absolute-id-below", "target-with-own-id", "through-anyOf-failure"]
+NESTED = ["dir-then-root", "root-then-dir", "absolute-id-below", "target-with-own-id", "through-anyOf-failure", "same-relative-id-two-bases"]
 NESTED_BOOL = ["bool-target-true", "bool-target-false"]
 
 
